@@ -515,6 +515,19 @@ def main():
                     out[i + j * n] = line
         return out
 
+    run_once = run
+
+    def run(cases):
+        """a verdict that depends on the wall-clock watchdog (WATCHDOG, HANG) must repeat"""
+        outs = run_once(cases)
+        idx = [i for i, o in enumerate(outs) if "WATCHDOG" in o.split("|M.")[0] or o.startswith("HANG") or o == ""]
+        if idx:
+            again = run_once([cases[i] for i in idx])
+            for i, a in zip(idx, again):
+                if not ("WATCHDOG" in a.split("|M.")[0] or a.startswith("HANG") or a == ""):
+                    outs[i] = a
+        return outs
+
     if chk.replay:
         rp = json.load(open(chk.replay))
         case = rp.get("case")
